@@ -1,4 +1,5 @@
 import Properties.C03
+import Properties.C03Divert
 #print axioms Hive.C03.exit_refused
 #print axioms Hive.C03.no_divert
 #print axioms Hive.C03.pickup_exact
@@ -11,3 +12,6 @@ import Properties.C03
 #print axioms Hive.C03.run_dropoff_by_picker
 #print axioms Hive.C03.run_dropoff_once
 #print axioms Hive.C03.run_on_board
+#print axioms Hive.C03.applyPlans_keeps_carrier
+#print axioms Hive.C03.no_divert_phase
+#print axioms Hive.C03.divert_monitor_silent
